@@ -20,6 +20,7 @@ Directive grammar (each on its own line, leading whitespace allowed):
   //@ forward "CALL" => "EXPR" via FILE :: SELECTOR == "BODY"   rule R20: CALL is a call of the forwarding method SELECTOR whose body is
                             (checked on every run) exactly BODY; it is replaced by EXPR
   //@ for-next N into=F next=G [iter=NAME]   rule R18: the N-th loop, a `for`, is written as `loop { match G(&mut it) {..} }`
+  //@ encode-calls "PREFIX" => "FN"   rule R26: `PREFIX::V(args).encode(&mut b)` is written as the call `FN_V(args, &mut b)` of a named emitter
   //@ region-loop-iterable "TEXT" [#k]   rule R23: like region-start, but only the ITERABLE expression of the `for` statement that starts at
                             TEXT becomes (the tail expression of) the synthetic function: a contract on WHICH iterations there are
   //@ region-loop-body "TEXT" [#k]   rule R19: like region-start, but only the BODY of the loop that starts at TEXT (one iteration);
@@ -753,6 +754,56 @@ def rule_r25(text, rules):
         text = text[:st[r].start] + new + text[st[ec + 1].end:]
         rules.append("R25")
 
+def rule_r26(text, rules, specs):
+    """PREFIX::V(ARGS).encode(&mut B)      ->  FN_V(ARGS, &mut B)
+       PREFIX::V.encode(&mut B)            ->  FN_V(&mut B)
+       PREFIX::V { f: e, g: h }.encode(&mut B)  ->  FN_V__f__g(e, h, &mut B)
+    for each (PREFIX, FN) in specs (directive `encode-calls "PREFIX" => "FN"`).  A builder value that is constructed and encoded in one
+    expression is written as a call of a named emitter (declared in the unit, one per variant / field order), so that the emitter's contract
+    stands for `<variant>.encode`.  Purely syntactic: which emitter is called with which argument expressions is read off the text."""
+    for (prefix, fn) in specs:
+        ptoks = [t.text for t in sig(lex(prefix))]
+        while True:
+            toks, st = _sig_with_index(text)
+            hit = None
+            for i in range(len(st) - len(ptoks) - 3):
+                if [y.text for y in st[i:i + len(ptoks)]] != ptoks: continue
+                j = i + len(ptoks)
+                if st[j].text != "::" or st[j + 1].kind != "ident": continue
+                vname = st[j + 1].text
+                k = j + 2
+                args = None; fields = None
+                if st[k].text == "(":
+                    kc = match_close(st, k); args = text[st[k + 1].start:st[kc - 1].end] if kc > k + 1 else ""; k = kc + 1
+                elif st[k].text == "{":
+                    kc = match_close(st, k)
+                    parts = _split_top_commas(st, k + 1, kc)
+                    fields = []
+                    ok = True
+                    for (lo, hi) in parts:
+                        if hi - lo >= 3 and st[lo].kind == "ident" and st[lo + 1].text == ":":
+                            fields.append((st[lo].text, text[st[lo + 2].start:st[hi - 1].end]))
+                        elif hi - lo == 1 and st[lo].kind == "ident":
+                            fields.append((st[lo].text, st[lo].text))
+                        else: ok = False
+                    if not ok: continue
+                    k = kc + 1
+                if [y.text for y in st[k:k + 3]] != [".", "encode", "("]: continue
+                ec = match_close(st, k + 2)
+                barg = text[st[k + 3].start:st[ec - 1].end]
+                hit = (i, ec, vname, args, fields, barg); break
+            if hit is None: break
+            i, ec, vname, args, fields, barg = hit
+            if fields is not None:
+                call = "%s_%s__%s(%s, %s)" % (fn, vname, "__".join(f for f, _ in fields), ", ".join(e for _, e in fields), barg)
+            elif args is None:
+                call = "%s_%s(%s)" % (fn, vname, barg)
+            else:
+                call = "%s_%s(%s, %s)" % (fn, vname, args, barg)
+            text = text[:st[i].start] + call + text[st[ec].end:]
+            rules.append("R26")
+    return text
+
 def rule_r18(text, rules, specs):
     """for PAT in E { B }  ->  { let mut IT = INTO(E); loop { match NEXT(&mut IT) { None => { break; } Some(PAT) => { B } } } }
     - the definition of `for` in the Rust reference - for iterators that have no Verus specification (wasmparser's section
@@ -1131,6 +1182,8 @@ def extract_item(path, selector, opts, directives, findings_open):
         text = rule_r22(text, rules)
         text = rule_r24(text, rules)
         text = rule_r25(text, rules)
+        if directives.get("encodecalls"):
+            text = rule_r26(text, rules, directives["encodecalls"])
         if directives.get("fornext") and it.kind == "fn":
             text = rule_r18(text, rules, directives["fornext"])
         if "r3" in opts:
@@ -1409,6 +1462,11 @@ def generate(spec_path, open_findings=(), auto_helpers=()):
                         if d2.startswith("region-start "):
                             q, _r = _parse_quoted(d2[len("region-start "):]); directives.setdefault("region", {})["start"] = q
                             if _r.strip().startswith("#"): directives["region"]["start_k"] = int(_r.strip()[1:])
+                        elif d2.startswith("encode-calls "):
+                            a_, rest_ = _parse_quoted(d2[len("encode-calls "):])
+                            if not rest_.strip().startswith("=>"): raise ExtractError("bad encode-calls: %s" % d2)
+                            b_, _r = _parse_quoted(rest_.strip()[2:])
+                            directives.setdefault("encodecalls", []).append((a_, b_))
                         elif d2.startswith("region-loop-iterable "):
                             q, _r = _parse_quoted(d2[len("region-loop-iterable "):]); directives.setdefault("region", {})["start"] = q
                             directives["region"]["iter_only"] = True
